@@ -51,6 +51,14 @@ class C01(PropBase):
             out.append(('malformed', s))
         for _ in range(n_junk):
             out.append(('junk', gen.junk_string(rng)))
+        # forced typing: right / wrong / unknown / empty type prefix, each also with control characters at the end
+        for t in v.order:
+            for _ in range(max(1, n_mut // (8 * len(v.order)))):
+                s = v.sid(t, rng, search_p=rng.choice([0, 0, 0.3]))
+                tail = rng.choice(['', '', '\n', '\r', '/', ' ', '\n\n', '\t'])
+                ty = rng.choice([t, t, t, rng.choice(v.order), '', 'nosuch', t + ':' + t])
+                out.append(('forced', ty + ':' + s + tail))
+                out.append(('forced', s + tail))
         return out
     def cases(self, rng, ctx, tier):
         k = 1 if tier == 'quick' else 15
@@ -87,7 +95,7 @@ class C01(PropBase):
             return 'Sid(%r): expected (sid, bool, len) = %r, got %r' % (s, exp, got)
         return None
     def nontrivial(self, case, impl):
-        if case.stream in ('structured', 'malformed', 'exhaustive') or (isinstance(impl, list) and impl and isinstance(impl[0], list) and impl[0][1]):
+        if case.stream in ('structured', 'malformed', 'exhaustive', 'forced') or (isinstance(impl, list) and impl and isinstance(impl[0], list) and impl[0][1]):
             return case.args
         return None
     def histogram_key(self, case, impl):
